@@ -148,6 +148,12 @@ def run(args):
     C.tlc_must_pass(r, "HmsLex exhaustive strings")
     rep.add_tlc(r)
     replay(r.cases, "exh")
+    # ---- family L1c: comments need longer inputs than the full alphabet allows: every string over / * a 1 and newline
+    # (where a block comment ends depends on runs of stars and slashes: /***/, /* **/, /*/*/, // a*/ ...)
+    r = C.run_tlc("HmsLex", cfg("exh", maxlen=8 if thorough else 7, alphabet=[47, 42, 97, 49, 10]), timeout=3000, heap="16g")
+    C.tlc_must_pass(r, "HmsLex comment strings")
+    rep.add_tlc(r)
+    replay(r.cases, "comments")
 
     # ---- family L2: adjacency of two lexemes
     ncat = 170  # upper bound; the spec ignores indices beyond the catalogue
